@@ -1,5 +1,6 @@
 """C10 -- Generated C# state machine implements exactly the transition table (token structure; no C# compiler exists here)."""
 import glob
+import itertools
 import json
 import os
 import re
@@ -263,6 +264,96 @@ def exec_real(files, table, spec, evs_with_args, bits):
     return steps, None
 
 
+def exec_threaded(files, table, spec, evs_with_args, bits, decisions, idle_limit=14):
+    """Execute the THREADED configuration (SM_THREAD_1 branch) of the real generated text under an explicit cooperative schedule:
+    the constructor starts the dispatch thread, one producer thread calls Trigger<e>(args) in order; at every yield point
+    (Enqueue / TryDequeue / Sleep / WaitOne / Set / Start ...) `decisions` (then round robin) picks the thread that runs.
+    The run ends when the producer is done and nothing can run, or nothing observable happened for `idle_limit` steps.
+    Returns ({"trace": callbacks in order, "is": true Is<State>(), "schedule": [(thread, yield point)], "queued": left in queues}, None) or (None, why)."""
+    st, _ev, _ac, gu = smlib.names(table)
+    texts = []
+    for f in ("%sContext.cs", "%sInternals.cs", "%sStateMachine.cs"):
+        texts.append(re.sub(r"(?m)^\s*#define SM_THREAD_\w+\s*$", "", files[f % NAME]))
+    try:
+        classes = csmini.parse_program(texts, {"SM_THREAD_1"})
+    except csmini.CsError as e:
+        return None, "the generated C# (threaded configuration) is outside the interpreted subset: %s" % e
+    trace, count = [], [0]
+
+    def cb(name, args):
+        trace.append(name)
+        if name in gu:
+            i = count[0]
+            count[0] += 1
+            return bits[i] if i < len(bits) else False
+        return None
+    rr = [0]
+
+    def choose(names, step):
+        if step < len(decisions):
+            return names[decisions[step] % len(names)]
+        rr[0] += 1
+        return names[rr[0] % len(names)]
+    sched = csmini.Sched(choose)
+    it = csmini.Interp(classes, max_steps=400000, sched=sched)
+    smc = "%sStateMachine" % NAME
+    done = [False]
+    try:
+        sm = it.new(smc, [csmini.External(cb)])
+
+        def producer():
+            for ev, args in evs_with_args:
+                m = it.find_method(smc, "Trigger" + ev)
+                if m is None:
+                    raise csmini.CsError("no Trigger%s in the generated state machine" % ev)
+                it.invoke(m, sm, None, list(args))
+            done[0] = True
+        sched.spawn("producer", producer)
+        idle, seen = 0, (0, 0)
+        while True:
+            who = sched.step()
+            if who is None:
+                break
+            queued = sum(len(v.items) for v in sm.fields.values() if isinstance(v, csmini.Builtin))
+            now = (len(trace), queued)
+            idle = 0 if (now != seen or not done[0]) else idle + 1
+            seen = now
+            if done[0] and idle >= idle_limit:
+                break
+        queued = sum(len(v.items) for v in sm.fields.values() if isinstance(v, csmini.Builtin))
+        iss = [s for s in st if it.invoke(it.find_method(smc, "Is" + s), sm, None, [])]
+        return {"trace": list(trace), "is": iss, "schedule": list(sched.log), "queued": queued, "producer_done": done[0]}, None
+    except csmini.CsError as e:
+        return None, "executing the threaded configuration raised: %s (schedule so far %r)" % (e, sched.log[-12:])
+    finally:
+        sched.shutdown()
+
+
+def threaded_case(ctx, files, table, spec, evs_with_args, bits, decisions):
+    """Every triggered event is handled exactly once, in Trigger order, by the handler of the state the machine is in at that
+    moment: the callbacks are those of the interpreter on the Trigger order. Returns (failure or None, schedule)."""
+    evs = [e for e, _a in evs_with_args]
+    want = quiet_interp(table, evs, bits)
+    exp = []
+    for cbs, _st in want:
+        for kind, nm, _e in cbs:
+            exp.append({"guard": nm, "action": nm, "exit": "On%sExit" % nm, "entry": "On%sEntry" % nm}[kind])
+    r, why = exec_threaded(files, table, spec, evs_with_args, bits, decisions)
+    if r is None:
+        return why, None
+    sched = [t for t, _w in r["schedule"]]
+    if not r["producer_done"]:
+        return "the producer could not finish its Trigger calls (blocked) under the schedule", r["schedule"]
+    if r["trace"] != exp:
+        k = next((i for i, (a, b) in enumerate(zip(r["trace"], exp)) if a != b), min(len(r["trace"]), len(exp)))
+        return ("threaded configuration: after %d Trigger calls and the dispatch thread running until nothing more happens, the callbacks are %r "
+                "(%d events still queued); the table on the Trigger order says %r (first difference at %d)" % (
+                    len(evs), r["trace"], r["queued"], exp, k)), r["schedule"]
+    if r["is"] != [want[-1][1]]:
+        return "threaded configuration: Is<State>() true for %r at the end, the table says %r" % (r["is"], want[-1][1]), r["schedule"]
+    return None, r["schedule"]
+
+
 def quiet_interp(table, evs, bits):
     return [([c for c in cbs if c[0] != "notrans"], s) for cbs, s in smlib.py_table_interp(table, evs, bits)]
 
@@ -301,7 +392,10 @@ def exec_case(ctx, files, table, spec, evs_with_args, bits):
     return None
 
 
-def one_case(ctx, table, spec, rng_bits, evs_with_args=None):
+LAST_SCHEDULE = [None]
+
+
+def one_case(ctx, table, spec, rng_bits, evs_with_args=None, decisions=None):
     with scratch() as d:
         kj.generate("cs", d, table=table, iface=smlib.build_iface(spec), name=NAME)
         files = {}
@@ -378,6 +472,12 @@ def one_case(ctx, table, spec, rng_bits, evs_with_args=None):
         r = exec_case(ctx, files, table, spec, evs_with_args, rng_bits[0] + rng_bits[1])
         if r:
             return r, "cs-executed-behaviour"
+        for dec in (decisions or []):
+            r, schedule = threaded_case(ctx, files, table, spec, evs_with_args, rng_bits[0] + rng_bits[1], dec)
+            ctx.count("threaded_schedules")
+            if r:
+                LAST_SCHEDULE[0] = {"decisions": list(dec), "schedule": schedule}
+                return r, "cs-threaded-behaviour"
     return None, None
 
 
@@ -406,10 +506,16 @@ def run(ctx):
         if not replay(ctx, data):
             ctx.violation("corpus case %s fails" % os.path.basename(p), dict(data, finding_key=data.get("finding_key", "corpus:" + os.path.basename(p))))
     smlib.ttmodel_batch(ctx, ctx.budget(400, 5000))   # the table model this property's model is built on
-    n = ctx.budget(2500, 30000)
+    n = ctx.budget(1200, 20000)
     for i in range(n):
         table, spec, bits, evs = gen_case(ctx.rng, i)
-        fail, key = one_case(ctx, table, spec, bits, evs)
+        # schedules of the threaded configuration: two random ones per case; every 40th case all 2^7 decision prefixes on <= 3 events
+        decs = [[ctx.rng.randrange(3) for _ in range(ctx.rng.randint(0, 40))] for _ in range(2)]
+        if i % 40 == 0:
+            evs = evs[:3]
+            decs = [list(d) for d in itertools.product([0, 1], repeat=7)]
+            ctx.count("exhaustive_schedule_cases")
+        fail, key = one_case(ctx, table, spec, bits, evs, decs)
         tags = smlib.shape_tags(table)
         ctx.case((json.dumps(table), json.dumps(spec, sort_keys=True)), nontrivial=bool(tags & {"multi_row_group", "row_without_target", "target_only_state"}))
         for tg in tags:
@@ -417,9 +523,16 @@ def run(ctx):
         if i < 2:
             ctx.sample({"table": table, "iface": spec})
         if fail:
-            small = smlib.shrink_rows(table, lambda t: one_case(ctx, t, spec, bits, [ev for ev in evs if ev[0] in smlib.names(t)[1] + [nm for nm, _m in spec["structs"]]])[0] is not None)
+            bad = LAST_SCHEDULE[0]
+            decs1 = [bad["decisions"]] if (key == "cs-threaded-behaviour" and bad) else decs
+            small = smlib.shrink_rows(table, lambda t: one_case(ctx, t, spec, bits, [ev for ev in evs if ev[0] in smlib.names(t)[1] + [nm for nm, _m in spec["structs"]]], decs1)[0] is not None)
             evs = [ev for ev in evs if ev[0] in smlib.names(small)[1] + [nm for nm, _m in spec["structs"]]]
-            ctx.violation(fail, {"table": small, "iface": spec, "bits": bits, "events": evs, "finding_key": key, "original_table": table})
+            fail2, _k = one_case(ctx, small, spec, bits, evs, decs1)
+            rec = {"table": small, "iface": spec, "bits": bits, "events": evs, "finding_key": key, "original_table": table}
+            if key == "cs-threaded-behaviour" and LAST_SCHEDULE[0]:
+                rec["decisions"] = LAST_SCHEDULE[0]["decisions"]
+                rec["schedule"] = LAST_SCHEDULE[0]["schedule"]
+            ctx.violation(fail2 or fail, rec)
 
 
 def replay(ctx, data):
@@ -427,7 +540,8 @@ def replay(ctx, data):
         print(json.dumps(data.get("no_longer_checks"), indent=1)[:3000])
         return False
     bits = data.get("bits") or [[False] * 8, [True] * 8, [True, False] * 4, [False, True] * 4]
-    fail, _key = one_case(ctx, data["table"], data["iface"], bits, data.get("events", []))
+    decs = [data["decisions"]] if data.get("decisions") is not None else [[], [0] * 12, [1] * 12, [0, 0, 0, 0, 1, 1], [1, 0] * 8]
+    fail, _key = one_case(ctx, data["table"], data["iface"], bits, data.get("events", []), decs)
     if fail:
         print("replay:", fail)
     return fail is None
